@@ -202,7 +202,8 @@ def check_C09(run):
                                              parts=("a", "b"), ik=("shared", "session"), sk=(True,), **small)))
     if not q:
         fams.append(("race-dup", dict(over=dict(MaxT=1, MaxKids=4, MaxRecs=2, MaxRevokes=0, EmitEvery=10), procs=("p1", "p2"), ik=("session",), sk=(True,), **small)))
-    return generic(run, fams)
+    import eng_conc
+    return generic(run, fams, extra=eng_conc.release_part)
 
 
 def check_C10(run):
@@ -320,6 +321,9 @@ def check_C14(run):
 
 def replay(run, finding):
     case = finding.get("case", {})
+    if case.get("scenario"):      # a schedule of the concurrent part
+        import eng_conc
+        return eng_conc.replay(run, finding)
     tr = case.get("trace")
     if not tr:
         print("nothing to replay")
